@@ -21,7 +21,7 @@ Export ==
          ref |-> RefDoc(doc0)])>>)
 
 AllModels == {Cat.models[i].id : i \in DOMAIN Cat.models}
-AliasModels == {"collections", "plain", "enum_str", "parsed", "extra", "hooks", "mixany", "setval", "extracyc", "dashed_sav"}
+AliasModels == {"collections", "plain", "enum_str", "parsed", "extra", "hooks", "mixany", "setval", "extracyc", "dashed_sav", "dashed", "tree"}
 
 \* cheap structural invariants checked in every state
 TypeOK ==
